@@ -700,3 +700,67 @@ pub fn c10_paths() -> i32 {
     }
     report(found, tried)
 }
+
+// ---------------------------------------------------------------------------------------------
+// C08 / U-TYPEIR: create_type_ir on registry types (one-field uint struct, two-field struct, one-field bool struct, enum, a
+// primitive) with and without a configured CompactAs path, with global / specific / recursive registrations; the IR's
+// derives and attributes are compared with default + specific (after flattening) + CompactAs iff eligible and configured
+pub fn c08_typeir() -> i32 {
+    use std::collections::BTreeSet;
+    // ids: 0 u32, 1 bool, 2 m::One(u32), 3 m::Two{a: u32, b: bool}, 4 m::Flag{f: bool}, 5 m::E { A, B(u32) }, 6 m::Outer{x: One}
+    let reg = registry(vec![
+        ty("", vec![], prim(TypeDefPrimitive::U32)), ty("", vec![], prim(TypeDefPrimitive::Bool)),
+        ty("m::One", vec![], composite(vec![field(None, 0, Some("u32"))])),
+        ty("m::Two", vec![], composite(vec![field(Some("a"), 0, Some("u32")), field(Some("b"), 1, Some("bool"))])),
+        ty("m::Flag", vec![], composite(vec![field(Some("f"), 1, Some("bool"))])),
+        ty("m::E", vec![], variant(vec![("A", 0, vec![]), ("B", 1, vec![field(None, 0, Some("u32"))])])),
+        ty("m::Outer", vec![], composite(vec![field(Some("x"), 2, Some("One"))])),
+    ]);
+    let show = |t: &dyn quote::ToTokens| t.to_token_stream().to_string().replace(' ', "");
+    let p = |s: &str| -> syn::Path { syn::parse_str(s).unwrap() };
+    let tp = |s: &str| -> syn::TypePath { syn::parse_str(s).unwrap() };
+    let at = |s: &str| -> syn::Attribute { let id: syn::Ident = syn::parse_str(s).unwrap(); syn::parse_quote!(#[#id]) };
+    let mut tried = 0;
+    let mut found = None;
+    'o: for with_ca in [false, true] { for codec in [false, true] { for mask in 0..8u32 {
+        let mut settings = TypeGeneratorSettings::default();
+        let mut d = DerivesRegistry::new();
+        d.add_derives_for_all([p("G")]);
+        d.add_attributes_for_all([at("g")]);
+        if mask & 1 != 0 { d.add_derives_for(tp("m::One"), [p("S1")], false); }
+        if mask & 2 != 0 { d.add_derives_for(tp("m::Outer"), [p("R")], true); d.add_attributes_for(tp("m::Outer"), [at("r")], true); }
+        if mask & 4 != 0 { d.add_attributes_for(tp("m::E"), [at("e")], false); }
+        settings.derives = d.clone();
+        if with_ca { settings.compact_as_type_path = Some(p("::codec::CompactAs")); }
+        settings.insert_codec_attributes = codec;
+        let flat = match d.flatten_recursive_derives(&reg) { Ok(f) => f, Err(e) => { found = Some((format!("mask {mask}"), format!("flatten failed: {e}"))); break 'o; } };
+        let gen = TypeGenerator::new(&reg, &settings);
+        for id in 0..reg.types.len() {
+            tried += 1;
+            let t = &reg.types[id].ty;
+            let r = panic::catch_unwind(panic::AssertUnwindSafe(|| gen.create_type_ir(t, &flat)));
+            let name = t.path.segments.join("::");
+            let describe = || format!("create_type_ir of type {id} `{name}` (0 u32, 1 bool, 2 m::One(u32), 3 m::Two{{a,b}}, 4 m::Flag{{f: bool}}, 5 enum m::E, 6 m::Outer{{x: One}}), CompactAs configured: {with_ca}, codec attributes: {codec}, registrations mask {mask} (1: derive S1 on m::One, 2: recursive derive R + attribute r on m::Outer, 4: attribute e on m::E)");
+            let r = match r { Ok(r) => r, Err(_) => { found = Some((describe(), "panic".into())); break 'o; } };
+            let is_def = id >= 2;
+            match r {
+                Err(e) => { found = Some((describe(), format!("error {e}"))); break 'o; }
+                Ok(None) => if is_def { found = Some((describe(), "no IR for a struct / enum".into())); break 'o; },
+                Ok(Some(ir)) => {
+                    if !is_def { found = Some((describe(), "an IR for a builtin type".into())); break 'o; }
+                    let mut wd: BTreeSet<String> = ["G".to_string()].into_iter().collect();
+                    let mut wa: BTreeSet<String> = ["#[g]".to_string()].into_iter().collect();
+                    if mask & 1 != 0 && id == 2 { wd.insert("S1".into()); }
+                    if mask & 2 != 0 && (id == 6 || id == 2) { wd.insert("R".into()); wa.insert("#[r]".into()); }
+                    if mask & 4 != 0 && id == 5 { wa.insert("#[e]".into()); }
+                    if with_ca && id == 2 { wd.insert("::codec::CompactAs".into()); }
+                    let gd: BTreeSet<String> = ir.derives.derives().iter().map(|x| show(x)).collect();
+                    let ga: BTreeSet<String> = ir.derives.attributes().iter().map(|x| show(x)).collect();
+                    if gd != wd || ga != wa { found = Some((describe(), format!("derives {gd:?} attributes {ga:?}; expected {wd:?} {wa:?}"))); break 'o; }
+                    if ir.insert_codec_attributes != codec { found = Some((describe(), "insert_codec_attributes differs from the setting".into())); break 'o; }
+                }
+            }
+        }
+    } } }
+    report(found, tried)
+}
